@@ -109,16 +109,14 @@ Definition last_value {A} (k : bytes) (kvs : list (bytes * A)) : option A :=
 Definition has_byte (c : N) (s : bytes) : bool := existsb (fun x => x =? c) s.
 
 Definition typed_key (key : bytes) : option (bytes * bytes) :=
-  match rev key with
-  | 41 :: _ =>
-      let body := removelast key in
-      if has_byte LPAR body then
-        let type := take_until LPAR body in
-        let name := drop_until LPAR body in
-        if has_byte RPAR name then None else Some (type, name)
-      else None
-  | _ => None
-  end.
+  if has_byte LPAR key then
+    let type := take_until LPAR key in
+    match rev (drop_until LPAR key) with
+    | c :: rn =>
+        if (c =? RPAR) && negb (has_byte RPAR rn) then Some (type, rev rn) else None
+    | [] => None
+    end
+  else None.
 
 Definition type_base (type : bytes) : option N :=
   if bytes_eqb type s_SYMBOL then Some 16
@@ -181,7 +179,7 @@ Fixpoint clash_free (ps : list (list bytes)) : bool :=
   | p :: t => negb (existsb (paths_clash p) t) && clash_free t
   end.
 
-Definition leading_dot (k : bytes) : bool := match k with 46 :: _ => true | _ => false end.
+Definition leading_dot (k : bytes) : bool := match k with c :: _ => c =? DOT | [] => false end.
 
 Definition line_paths (text : bytes) : list (list bytes) :=
   map (fun kv => split_on DOT (fst kv)) (text_kvs text).
@@ -216,24 +214,6 @@ Definition dec_value (ds : bytes) : N :=
   let v := fold_left (fun acc c => acc * 10 + (c - 48)) ds 0 in
   if W <=? v then MAXA else v.            (* strtoul saturates *)
 
-(** "a.b.c<rest>" with a, b, c decimal: Some (a, b, c) *)
-Definition triple (rel : bytes) : option (N * N * N) :=
-  let a := dec_digits rel in
-  match a, skipn (length a) rel with
-  | _ :: _, 46 :: r1 =>
-      let b := dec_digits r1 in
-      match b, skipn (length b) r1 with
-      | _ :: _, 46 :: r2 =>
-          let c := dec_digits r2 in
-          match c with
-          | _ :: _ => Some (dec_value a, dec_value b, dec_value c)
-          | [] => None
-          end
-      | _, _ => None
-      end
-  | _, _ => None
-  end.
-
 (** KERNEL_VERSION of <linux/version.h>: the sublevel saturates at 255; 64-bit wrap *)
 Definition spec_version (a b c : N) : N :=
   (a * 65536 + b * 256 + N.min c 255) mod W.
@@ -249,15 +229,18 @@ Definition plain_start (s : bytes) : bool :=
 
 (** [None]: outside the spec; [Some None]: must be refused as an invalid
     version; [Some (Some code)]: must be accepted with this code *)
+Definition after_dot (s : bytes) : option bytes :=
+  match s with c :: t => if c =? DOT then Some t else None | [] => None end.
+
 Definition release_verdict (rel : bytes) : option (option N) :=
   if negb (plain_start rel) then None else
   let a := dec_digits rel in
-  match a, skipn (length a) rel with
-  | _ :: _, 46 :: r1 =>
+  match a, after_dot (skipn (length a) rel) with
+  | _ :: _, Some r1 =>
       if negb (plain_start r1) then None else
       let b := dec_digits r1 in
-      match b, skipn (length b) r1 with
-      | _ :: _, 46 :: r2 =>
+      match b, after_dot (skipn (length b) r1) with
+      | _ :: _, Some r2 =>
           if negb (plain_start r2) then None else
           match dec_digits r2 with
           | _ :: _ =>
